@@ -566,4 +566,29 @@ example : pickLoaded .reporter .cmdline [['z']] [(['q'], ['n','o',':','X'])] [([
             = .cls (.plugin ['m',':','C']) ∧
           pickLoaded .loader .config [] [(['q'], ['m'])] [(['m'], [['C']])] ['q'] = .escapes := by decide
 
+/-- **the sub-command by name**: a `COMMAND` plugin named like a core command REPLACES it (also `run`, also when `run`
+    is only implied); a first word that is no command name leaves the command `run` with every word as argument; only
+    the entry of the command that is used has to load. -/
+theorem command_by_name (core : List Str) (sect : List (Str × Str)) (mods : List (Str × List Str))
+    (a : Str) (rest : List Str) :
+    (∀ loc, alookup a sect = some loc → (loadPlugin mods loc).toBool = true →
+        commandPick core sect mods (a :: rest) = .cls (.plugin loc)) ∧
+    (alookup a sect = none → a ∈ core → commandPick core sect mods (a :: rest) = .cls (.core a)) ∧
+    (a ∉ core → a ∉ sect.map (·.1) →
+        subCommand (nameTable core sect) (a :: rest) = (runName, a :: rest) ∧
+        commandPick core sect mods (a :: rest) = commandPick core sect mods []) := by
+  refine ⟨?_, ?_, ?_⟩
+  · intro loc h hl
+    simp [commandPick, subCommand, nameTable_lookup, h, hl]
+  · intro h hc
+    simp [commandPick, subCommand, nameTable_lookup, h, hc]
+  · intro hc hs
+    have : alookup a sect = none := alookup_not_mem a sect hs
+    simp [commandPick, subCommand, nameTable_lookup, this, hc]
+
+example : commandPick [runName, ['l']] [(runName, ['m',':','C']), (['q'], ['b','a','d'])] [(['m'], [['C']])] [['t']]
+            = .cls (.plugin ['m',':','C']) ∧
+          commandPick [runName, ['l']] [(['q'], ['b','a','d'])] [(['m'], [['C']])] [['l'], ['t']] = .cls (.core ['l']) ∧
+          commandPick [runName, ['l']] [(['q'], ['b','a','d'])] [(['m'], [['C']])] [['q']] = .traceback3 := by decide
+
 end DoitModel.C16
